@@ -55,7 +55,7 @@ theorem steps_iff (s : SpecDesc) : ∀ (m : Mapping Nat) (σ : St),
     have ih := steps_iff s r (σ.afterLoop rv tile) hb
     simp only [St.afterLoop] at ih
     simp only [steps, Bool.and_eq_true, ih, endsWithCompute, List.all_cons, nodeOk, loopsOk, holderKeys,
-      orderOk, topOk, validOk, List.contains_iff_mem, mem_loopOptions, decide_eq_true_eq, beq_iff_eq,
+      topOk, validOk, List.contains_iff_mem, mem_loopOptions, decide_eq_true_eq, beq_iff_eq,
       St.afterLoop, Bool.true_and]
     constructor
     · rintro ⟨⟨h1, h2, h3, h4, h5⟩, he, hn, hl, hp, ho, htop, hv⟩
